@@ -5,17 +5,29 @@ IEEE-754 bit pattern; integers in decimal.
 
 `sc  nt m b k h d0 v0 F_0 … F_{nt-1}`
       scalar instance `scalarSys` (one diagonal DOF) → `ok d… v… a…` (3·nt numbers) | `index-error`
-`mx  n nt h M(n·n, row-major) B K  F(nt columns of n)  d0(n) v0(n)  nterms {kind p q c g T(n)}*`
-      matrix instance `matSys` with Gaussian elimination as `solve`; nonlinear term `i` is
-      `T_i * z_i(d_j, d_{j-1}, j, h)` with a scalar `z_i` of kind
-        0: c·x_p³    1: c·max(x_p − x_q − g, 0)    2: c·w·|w|, w = (x_p − xprev_p)/h    3: c·x_p·j + g
+`mxf n nt h mflag [M(n·n, row-major) if mflag = 1] B K  F(nt columns of n)  d0(n) v0(n)  nrf rf(nrf)
+      nterms {kind p q c g r T(r columns of nn)}*`
+      the whole `tsolve` on all `n` rows: `tsolveRf` (rf rows static, the others `run` on `matSysOpt` of the non-rf
+      partition, `m = None` when mflag = 0) with Gaussian elimination as `solve`; the nonlinear terms go through the
+      model's `defNonlin` / `getNonlin` (`T' = solve T` column by column, `N = 0.0; N += T' @ z`); term `i` has the
+      callback `z_i(d_j, d_{j-1}, j, h)` of kind
+        0: [c·x_p³]    1: [c·max(x_p − x_q − g, 0)]    2: [c·w·|w|], w = (x_p − xprev_p)/h    3: [c·x_p·j + g]
+        4: [c·x_p, g·w]  (two outputs, `T` has two columns)
       → `ok d(nt columns of n) v a` | `index-error`
+`zout nn nt h um(nn) d(nt columns of nn) nterms {kind p q c g r T}*`
+      `sol.z` by the model's `zOut` on a given displacement history → `ok z` (per term, per step, r values)
 `cdf n nt order F G A B Fp Gp Ap Bp (n each) bo(n·n) alpha(n·n) P(nt columns of n) d0 v0`
       → `ok d(nt columns of n) v`   (`alpha` given by the caller)
 `cdfa n nt order F G A B Fp Gp Ap Bp (n each) bo(n·n) P(nt columns of n) d0 v0`
       the same with `alpha = alphaMat Bp bo gaussSolve` computed by the model
       → `ok alpha(n·n, row-major) d(nt columns of n) v`
 `rfm n nt Krf(n·n) F(nt columns of n)` → `ok d(nt columns of n)`   (`rfStaticMat` with Gaussian elimination)
+`cdfx n nt order mflag [m(n)] bdiag(n) k(n) F G A B Fp Gp Ap Bp (n each) bo(n·n) P(nt columns of n) d0 v0`
+      `cdfa` plus the recovered accelerations `cdfAcc` (`invm = 1.0 / m`, full damping = `bo` with `bdiag` on the diagonal)
+      → `ok alpha(n·n) d v a`
+`f2x n r nrf B(n) Bp(n) bo(n·n) phik(r rows of n) krf(nrf) phirf(r rows of nrf)`
+      `cdfGetF2x` for displacements and velocities, `alpha = alphaMat Bp bo gaussSolve`
+      → `ok flex_d(r·r) flex_v(r·r)`
 anything else → `bad-op`. -/
 open PyYetiVerif PyYetiVerif.Newmark
 
@@ -78,29 +90,31 @@ structure Term where
   q : Nat
   c : Float
   g : Float
-  T : Vec Float
+  T : List (Vec Float)
 
 def term (n : Nat) : P Term := do
-  pure { kind := ← nat, p := ← nat, q := ← nat, c := ← flt, g := ← flt, T := ← vec n }
+  let kind ← nat; let p ← nat; let q ← nat; let c ← flt; let g ← flt
+  let r ← nat
+  let T ← many r (vec n)
+  pure { kind := kind, p := p, q := q, c := c, g := g, T := T.toList }
 
-def zval (t : Term) (h : Float) (j : Nat) (x xp : Vec Float) : Float :=
+def zvals (t : Term) (h : Float) (j : Nat) (x xp : Vec Float) : List Float :=
   let xp_ := x.a[t.p]!
   match t.kind with
-  | 0 => t.c * (xp_ * xp_ * xp_)
+  | 0 => [t.c * (xp_ * xp_ * xp_)]
   | 1 => let e := xp_ - x.a[t.q]! - t.g
-         t.c * (if e > 0 then e else 0)
+         [t.c * (if e > 0 then e else 0)]
   | 2 => let w := (xp_ - xp.a[t.p]!) / h
-         t.c * (w * w.abs)
-  | _ => t.c * xp_ * j.toFloat + t.g
+         [t.c * (w * w.abs)]
+  | 3 => [t.c * xp_ * j.toFloat + t.g]
+  | _ => [t.c * xp_, t.g * ((xp_ - xp.a[t.p]!) / h)]
 
-/-- `N = Σ T'_i @ z_i` with `T'_i = lu_solve(Ad, T_i)` -/
-def mkNl (n : Nat) (S : Sys (Vec Float) Float) (terms : Array Term) : Nat → List (Vec Float) → Vec Float :=
-  let pre := terms.map fun t => (t, S.solve t.T)
+/-- the callback of a term as `def_nonlin` receives it -/
+def termFunc (t : Term) (h : Float) : Nat → List (Vec Float) → List Float :=
   fun j hist =>
     match hist with
-    | x :: xp :: _ =>
-      pre.foldl (fun acc (t, Tp) => acc + VecOps.smul (zval t S.h j x xp) Tp) ⟨Array.replicate n 0.0⟩
-    | _ => ⟨Array.replicate n 0.0⟩
+    | x :: xp :: _ => zvals t h j x xp
+    | _ => []
 
 def fmtHist {V : Type} (f : List V → String) (r : Option (Hist V)) : String :=
   match r with
@@ -114,14 +128,35 @@ def opSc : P String := do
   let r := run (scalarSys m b k h) (fun _ _ => (0.0 : Float)) F.toList d0 v0
   pure (fmtHist (fun xs => " ".intercalate (xs.map bits)) r)
 
-def opMx : P String := do
+def opMxf : P String := do
   let n ← nat; let nt ← nat; let h ← flt
-  let M ← mat n; let B ← mat n; let K ← mat n
+  let mflag ← nat
+  let M ← if mflag == 1 then (do pure (some (← mat n))) else pure none
+  let B ← mat n; let K ← mat n
   let F ← many nt (vec n)
   let d0 ← vec n; let v0 ← vec n
-  let terms ← many (← nat) (term n)
-  let S := matSys M B K h gaussSolve
-  pure (fmtHist fmtVecs (run S (mkNl n S terms) F.toList d0 v0))
+  let nrf ← nat
+  let rf ← many nrf nat
+  let nn := n - nrf
+  let terms ← many (← nat) (term nn)
+  let zero : Vec Float := ⟨Array.replicate nn 0.0⟩
+  let dct := terms.toList.map fun t => (termFunc t h, t.T)
+  let nl : Sys (Vec Float) Float → Nat → List (Vec Float) → Vec Float :=
+    fun S => if terms.isEmpty then fun _ _ => zero else getNonlin zero (defNonlin S dct)
+  match tsolveRf n rf.toList M B K h gaussSolve nl F.toList d0 v0 with
+  | none => pure "index-error"
+  | some (d, v, a) => pure s!"ok {fmtVecs d} {fmtVecs v} {fmtVecs a}"
+
+/-- `sol.z` from the model's `zOut` on a GIVEN displacement history (the implementation's): the callbacks are
+evaluated on `[d_j, …, d_0, u₋₁]`, step by step -/
+def opZout : P String := do
+  let nn ← nat; let nt ← nat; let h ← flt
+  let um ← vec nn
+  let d ← many nt (vec nn)
+  let terms ← many (← nat) (term nn)
+  let tt : List (NlTerm Float (Vec Float)) := terms.toList.map fun t => { func := termFunc t h, Tp := t.T }
+  let z := zOut tt um d.toList
+  pure ("ok " ++ " ".intercalate (z.map fun rows => " ".intercalate (rows.map fun zz => " ".intercalate (zz.map bits))))
 
 def diagOp (c : Vec Float) : Vec Float → Vec Float := fun x => ⟨Array.zipWith (· * ·) c.a x.a⟩
 
@@ -152,6 +187,40 @@ def opCdfa : P String := do
   let r := Cdf.cdfRun C (order == 1) d0 v0 Pf.toList
   pure s!"ok {fmtVecs (al.toList.map fun row => ⟨row⟩)} {fmtVecs (r.map (·.1))} {fmtVecs (r.map (·.2.1))}"
 
+def opCdfx : P String := do
+  let n ← nat; let nt ← nat; let order ← nat
+  let mflag ← nat
+  let m ← if mflag == 1 then (do pure (some (← vec n))) else pure none
+  let bd ← vec n; let kk ← vec n
+  let cs ← many 8 (vec n)
+  let bo ← mat n
+  let Pf ← many nt (vec n)
+  let d0 ← vec n; let v0 ← vec n
+  let al := Cdf.alphaMat (cs[7]!).a bo gaussSolve
+  let C : Cdf.Ops (Vec Float) :=
+    { F := diagOp cs[0]!, G := diagOp cs[1]!, A := diagOp cs[2]!, B := diagOp cs[3]!,
+      Fp := diagOp cs[4]!, Gp := diagOp cs[5]!, Ap := diagOp cs[6]!, Bp := diagOp cs[7]!,
+      bo := matVec bo, alpha := matVec al }
+  let r := Cdf.cdfRun C (order == 1) d0 v0 Pf.toList
+  -- full damping: the off-diagonal part with the diagonal put back (`b[i, i] = self.b`)
+  let bfull : Mat Float := (Array.range n).map fun i => (Array.range n).map fun j =>
+    if i == j then bd.a[i]! else (bo[i]!)[j]!
+  let invm : Option (Vec Float → Vec Float) := m.map fun mv => diagOp ⟨mv.a.map fun x => 1.0 / x⟩
+  let acc := List.zipWith (fun p s => Cdf.cdfAcc (matVec bfull) (diagOp kk) invm p s.1 s.2.1) Pf.toList r
+  pure s!"ok {fmtVecs (al.toList.map fun row => ⟨row⟩)} {fmtVecs (r.map (·.1))} {fmtVecs (r.map (·.2.1))} {fmtVecs acc}"
+
+def opF2x : P String := do
+  let n ← nat; let r ← nat; let nrf ← nat
+  let Bc ← vec n; let Bp ← vec n
+  let bo ← mat n
+  let phik ← many r (many n flt)
+  let krf ← many nrf flt
+  let phirf ← many r (many nrf flt)
+  let al := Cdf.alphaMat Bp.a bo gaussSolve
+  let fd := Cdf.cdfGetF2x phik phirf Bc.a Bp.a krf al false
+  let fv := Cdf.cdfGetF2x phik phirf Bp.a Bp.a krf al true
+  pure s!"ok {fmtVecs (fd.toList.map fun row => ⟨row⟩)} {fmtVecs (fv.toList.map fun row => ⟨row⟩)}"
+
 def opRfm : P String := do
   let n ← nat; let nt ← nat
   let K ← mat n
@@ -166,10 +235,13 @@ def answer (line : String) : String :=
     | _ => "bad-op"
   match ws with
   | "sc" :: rest => go opSc rest
-  | "mx" :: rest => go opMx rest
+  | "mxf" :: rest => go opMxf rest
+  | "zout" :: rest => go opZout rest
   | "cdf" :: rest => go opCdf rest
   | "cdfa" :: rest => go opCdfa rest
   | "rfm" :: rest => go opRfm rest
+  | "cdfx" :: rest => go opCdfx rest
+  | "f2x" :: rest => go opF2x rest
   | _ => "bad-op"
 
 partial def loop (h : IO.FS.Stream) (out : IO.FS.Stream) : IO Unit := do
